@@ -47,7 +47,7 @@ m("eof1c-decoder-zero-header-is-eof",["C03","C12"],"datafile/log_record.go",
   "EOF1","eof-only-from-readers","an all-zero header decodes as end of log: a zeroed block silently hides the rest of the file",
   edits=[{"file":"datafile/log_record.go","find":"\t\"hash/crc32\"\n)","replace":"\t\"hash/crc32\"\n\t\"io\"\n)"}])
 m("tr1-mmap-close-without-truncate",["C02"],"fio/mmap.go",
-  "\tif err := m.ResetFileSize(); err != nil {\n\t\treturn err\n\t}\n\treturn m.file.Close()\n",
+  "\tif err := m.resetFileSize(); err != nil {\n\t\treturn err\n\t}\n\treturn m.file.Close()\n",
   "\tif m.activeMap != nil {\n\t\tif err := m.activeMap.Flush(); err != nil {\n\t\t\treturn err\n\t\t}\n\t\tif err := m.activeMap.Unmap(); err != nil {\n\t\t\treturn err\n\t\t}\n\t}\n\treturn m.file.Close()\n",
   "TR1","truncate-before-close","Close leaves the file at its mapping size: zero tail read as chunks on the next Open")
 m("cd5-block-size-exceeds-length-field",["C11"],"datafile/log_record.go",
